@@ -491,6 +491,26 @@ fn run(ctx: &Ctx) {
         },
         check,
     );
+    // offset and length sweep, large inputs (see gen.rs): rotated configuration, source, reader kind
+    let (pmax, qmax, vars) = ctx.tier.pick((130u64, 70u64, 1u64), (260, 140, 2));
+    ctx.run_indexed(
+        "offset-and-length-sweep",
+        gen::sweep_count(pmax, qmax, vars),
+        |i| {
+            let mut r = SplitMix64::derive(seed, "c03-sweep", i);
+            Some(Case { input: B(gen::sweep_nth(i, pmax, qmax, vars)), cfg: (r.next() & 127) as u8, source: (i % 3) as u8, piece: [0u8, 1, 7, 16, 33, 64][r.below(6) as usize], pend: r.below(2) as u8, ns: r.chance(1, 2), skip: if r.chance(1, 4) { r.next() as u8 } else { 0 }, raw: 0 })
+        },
+        check,
+    );
+    ctx.run_indexed(
+        "large-inputs",
+        gen::big_count() * 3,
+        |i| {
+            let mut r = SplitMix64::derive(seed, "c03-big", i);
+            Some(Case { input: B(gen::big_nth(i / 3)), cfg: (r.next() & 127) as u8, source: (i % 3) as u8, piece: [0u8, 64, 255][r.below(3) as usize], pend: 0, ns: r.chance(1, 2), skip: 0, raw: 0 })
+        },
+        check,
+    );
 }
 
 fn replay(_stage: &str, case: &Value) -> Result<Verdict, String> {
